@@ -17,8 +17,10 @@ Print Assumptions C06_kv_refused_no_trace.
 Print Assumptions C06_kv_duplicate.
 Print Assumptions C06_kv_valid_accepted.
 Print Assumptions C06_kv_ack_true_stored.
+Print Assumptions C06_kv_qinv_submit.
+Print Assumptions C06_kv_qinv_writer_step.
+Print Assumptions C06_kv_ack_true_queued.
 Print Assumptions C06_kv_ack_true_stored_refuted_engine_failure.
-Print Assumptions C06_kv_duplicate_refuted_in_flight.
 Print Assumptions inv_history.
 Example kvw_init_coherent : coherent_b KVW.Run.init_db = true.
 Proof. vm_compute. reflexivity. Qed.
